@@ -119,10 +119,10 @@ theorem debit_requires_authority (cfg : Config) (w : World) (op : Op) (c : Nat) 
         · rw [hbal a d] at hlt
           exact hesc _ _ (moveBal_lt hlt).1
     · rw [hsame] at hlt; omega
-  | timeout p =>
+  | timeout p oc =>
     exfalso
     simp only [opChain] at hc; subst hc
-    rcases step_timeout_cases cfg w p with ⟨ch', ha, hstep⟩ | ⟨hsame, _⟩
+    rcases step_timeout_cases cfg w p oc with ⟨ch', ha, hstep⟩ | ⟨hsame, _⟩
     · rw [hstep] at hlt
       simp only [World.setChain, if_true] at hlt
       obtain ⟨s, _, _, _, _, hb⟩ := refund_effect (timeoutPacket_ok ha)
@@ -160,7 +160,7 @@ def CreditTarget (cfg : Config) (c : Nat) (a : Addr) : Op → Prop
   | .sendV2 c' _ client _ _ _ => c = c' ∧ a = cfg.escrowAddr transferPort client
   | .recv p => c = p.dstChain ∧ cfg.decode p.data.receiver = some a
   | .ack p _ => c = p.srcChain ∧ cfg.decode p.data.sender = some a
-  | .timeout p => c = p.srcChain ∧ cfg.decode p.data.sender = some a
+  | .timeout p _ => c = p.srcChain ∧ cfg.decode p.data.sender = some a
   | .setParams _ _ _ => False
   | .bankSend c' _ to _ _ => c = c' ∧ a = to
 
@@ -259,11 +259,11 @@ theorem credit_targets (cfg : Config) (w : World) (op : Op) (c : Nat) (a : Addr)
         · rw [hbal a d] at hgt
           rw [(moveBal_gt hgt).1]; exact hs
     · rw [hsame] at hgt; omega
-  | timeout p =>
+  | timeout p oc =>
     simp only [opChain] at hc; subst hc
     simp only [CreditTarget]
     refine ⟨trivial, ?_⟩
-    rcases step_timeout_cases cfg w p with ⟨ch', ha, hstep⟩ | ⟨hsame, _⟩
+    rcases step_timeout_cases cfg w p oc with ⟨ch', ha, hstep⟩ | ⟨hsame, _⟩
     · rw [hstep] at hgt
       simp only [World.setChain, if_true] at hgt
       obtain ⟨s, hs, _, _, _, hb⟩ := refund_effect (timeoutPacket_ok ha)
